@@ -98,6 +98,32 @@ def shared_lists(a, b, deep):
     return out
 
 
+def identity_facts(rng, cls):
+    """the four in-place / rebind facts of the heap model (append_keeps_item_list, delitem_rebinds_item_list,
+    setitem_existing_rebinds_values, popLast_keeps_item_list) observed on a real object -> list of complaints"""
+    out = []
+    m = build(rng, cls)
+    m.append("k1", 1); m.append("k2", 2); m.append("k1", 3)
+    items = lambda: getattr(m, "_OrderedMultiDict__items")
+    i0 = items(); v0 = dict.__getitem__(m, "k1")
+    m.append("k1", 4)
+    if items() is not i0 or dict.__getitem__(m, "k1") is not v0:
+        out.append("append() no longer works in place on both lists")
+    i0 = items()
+    m.pop()
+    if items() is not i0:
+        out.append("pop() rebinds the item list (the model pops in place)")
+    i0 = items(); v0 = dict.__getitem__(m, "k1")
+    m["k1"] = 9
+    if items() is not i0 or dict.__getitem__(m, "k1") is v0:
+        out.append("__setitem__ on an existing key: the model keeps the item list and stores a fresh value list")
+    i0 = items()
+    del m["k2"]
+    if items() is i0:
+        out.append("__delitem__ edits the item list in place (the model rebinds it to a new list)")
+    return out
+
+
 def mutate_top(rng, m):
     r = rng.random()
     try:
@@ -118,6 +144,13 @@ def run(ctx):
     stats = collections.Counter()
     distinct = set()
     samples = []
+    for cls in (OrderedMultiDict, PVLModule, PVLGroup, PVLObject):
+        for w in identity_facts(rng, cls):
+            stats["identity-fact-differs"] += 1
+            if bad is None:
+                bad = {"what": "correspondence with the heap model: " + w, "class": cls.__name__, "mechanism": "-",
+                       "container": "-"}
+        stats["identity-facts-checked"] += 4
     for i in range(n):
         cls = [OrderedMultiDict, PVLModule, PVLGroup, PVLObject][i % 4]
         m = build(rng, cls)
